@@ -136,7 +136,7 @@ pub fn run_unary<T: W>(n: usize, fs: FillSet, shard: (usize, usize), seed: u64) 
             }
         }
         "take" => {
-            let idx: Vec<usize> = crate::unary::choose_take(n);
+            let idx: Vec<usize> = crate::unary::choose_take(n, fs.is_long());
             let want: Vec<f64> = idx.iter().map(|i| a[*i]).collect();
             let w = || format!("{} take({:?})", what(), idx);
             expect_v::<T>(&Cx { op: "vec.take", class: lc, what: &w }, mc::guard(|| v.take(&idx)), &want, None);
